@@ -14,7 +14,7 @@ def gen_value(rng, T, pool=None, small=True):
     if pool and rng.random() < 0.6:
         return rng.choice(pool)
     if T in ("ip", "nr"):
-        L = rng.choice([0, 1, 4, 16, 40]) if not small else rng.choice([0, 1, 2])
+        L = rng.choice([0, 1, 4, 16, 40, 63, 64, 65, 66, 128, 300, 1000, 4096]) if not small else rng.choice([0, 1, 2])
         return xh(bytes(rng.randrange(4 if small else 256) for _ in range(L)))
     if T == "ct":
         return "%d.%d" % (rng.choice([0, 1, 28, 65535]), rng.choice([0, 1, 65535]))
@@ -29,7 +29,7 @@ def gen_value(rng, T, pool=None, small=True):
         lims = [4, 65535, 63, 5, 63, 255, 32767, 65535, 4, 65535, 65535, 65535, 65535, 255, 65535, 4, 65535]
         return ".".join(opt(rng, [0, 1, lim], p=rng.choice([0.1, 0.5, 0.9])) for lim in lims)
     if T == "md":
-        pl = "-" if rng.random() < 0.3 else xh(bytes(rng.randrange(3) for _ in range(rng.choice([0, 1, 2, 30]))))
+        pl = "-" if rng.random() < 0.3 else xh(bytes(rng.randrange(3) for _ in range(rng.choice([0, 1, 2, 30] if small else [0, 1, 2, 30, 64, 65, 200, 1500]))))
         return "%s.%s.%s.%s" % (opt(rng, [0, 1, 2]), opt(rng, [0, 53, 65535]), opt(rng, [0, 1, 31]), pl)
     raise ValueError(T)
 
